@@ -242,7 +242,8 @@ func (serv *ExchangeServer[H]) handleRangeRequest(
 		}
 
 		// might be a case when store hasn't synced yet to the requested range
-		if head.Height() < from {
+		// or has already pruned it, i.e. the range ends below the tail
+		if head.Height() < from || head.Height() >= to-1 {
 			span.SetStatus(codes.Error, header.ErrNotFound.Error())
 			log.Debugw("server: requested headers not stored",
 				"from", from,
